@@ -164,6 +164,7 @@ func runC18(c *ctx) error {
 		priv, pub jwk.Set
 	}
 	var pairs []pair
+	rng18 := c.rng.Fork()
 	rounds := 2
 	for _, alg := range []jwa.SignatureAlgorithm{jwa.EdDSA, jwa.ES512, jwa.PS512} {
 		for r := 0; r < rounds; r++ {
@@ -181,6 +182,33 @@ func runC18(c *ctx) error {
 				}
 				sess.Add(vl.Escape("validate "+vl.Enc(keyDesc(k))), "ok")
 			}
+		}
+	}
+	// key ids of every shape, repeatedly (generation goes through Go maps: iteration order varies run to run)
+	reps := 24
+	if c.thorough() {
+		reps = 120
+	}
+	for _, alg := range []jwa.SignatureAlgorithm{jwa.EdDSA, jwa.ES512} {
+		for r := 0; r < reps; r++ {
+			kid := core.Pick(rng18, []string{"", "", "k", "a b", "é"})
+			priv, pub, err := jwkutil.NewKeyPair(kid, alg)
+			if err != nil {
+				c.res.Fail(core.OracleFailure{What: "NewKeyPair failed", Input: map[string]any{"alg": alg.String(), "kid": kid}, Got: err.Error()})
+				continue
+			}
+			for _, set := range []jwk.Set{priv, pub} {
+				k, ok := set.Key(0)
+				c.res.OracleChecks++
+				if !ok {
+					c.res.Fail(core.OracleFailure{What: "generated key set is empty", Input: map[string]any{"alg": alg.String(), "kid": kid}})
+					continue
+				}
+				if err := jwkutil.Validate(k); err != nil {
+					c.res.Fail(core.OracleFailure{What: "generated key does not validate", Input: map[string]any{"alg": alg.String(), "kid": kid}, Got: err.Error()})
+				}
+			}
+			c.res.Hist("generated-keys.varied-ids")
 		}
 	}
 	step := &signature.CommandStepWithInvariants{CommandStep: pipeline.CommandStep{Command: "echo hi"}, RepositoryURL: "git@example.com:o/r.git"}
